@@ -96,7 +96,27 @@ def run_partition(job):
     funcs = set()
     stop_mon = [None]
 
+    import signal
+
+    def on_alarm(signum, frame):
+        raise core.StepBudget("one path runs longer than %d s of wall time"
+                              % (ctx.max_path_time + 30))
+    try:
+        signal.signal(signal.SIGALRM, on_alarm)
+        have_alarm = True
+    except ValueError:
+        have_alarm = False
+
     def path_fn(cx):
+        if have_alarm:
+            signal.alarm(int(cx.max_path_time) + 30)
+        try:
+            return path_body(cx)
+        finally:
+            if have_alarm:
+                signal.alarm(0)
+
+    def path_body(cx):
         sx = api.SymAPI(cx)
         envpatch.reset()
         if hasattr(mod, 'reset'):
